@@ -24,7 +24,7 @@ for commit, prop in FIXES:
             out.append(rec); print(json.dumps(rec)); continue
         b = subprocess.run(["go", "build", "./..."], cwd=wt, env=ENV, stdout=subprocess.PIPE, stderr=subprocess.STDOUT, text=True)
         t = time.time()
-        c = subprocess.run(["./check", prop, "--tier", "quick"], cwd=V, env=dict(ENV, VERIF_REPO=wt), stdout=subprocess.PIPE, stderr=subprocess.STDOUT, text=True)
+        c = subprocess.run(["./check", prop, "--tier", "quick"], cwd=V, env=dict(ENV, VERIF_REPO=wt, VERIF_EVIDENCE_DIR=os.path.join(V, ".build", "evidence_scratch")), stdout=subprocess.PIPE, stderr=subprocess.STDOUT, text=True)
         v = [l for l in c.stdout.splitlines() if l.startswith("VIOLATION")]
         rec = {"commit": commit, "property": prop, "builds": b.returncode == 0, "exit": c.returncode, "violations": len(v),
                "with_input": any("no-failing-input-found" not in l for l in v), "wall_s": round(time.time() - t)}
